@@ -240,7 +240,10 @@ def r03_3(ck, F):
         e = b.expr(["c", s["p"]]) if False else None
         # the stored value: result of an Add whose operands are the old credits and self.port
         src = b.expr(s["rv"]["o"]) if s["rv"]["r"] == "use" else None
-        if src and src[0] == "bin" and src[1] == "Add" and any(p == "self.port" for p in mir.paths_in(src)):
+        adds = [c for c in mir.calls_in(src)] if src else []
+        is_add = src and (src[0] == "bin" and src[1] == "Add" or
+                          any(c[1].split("::")[-1] in ("saturating_add", "checked_add", "wrapping_add") for c in adds))
+        if is_add and any(p == "self.port" for p in mir.paths_in(src)):
             hit = (bb, i)
     ck.expect(hit is not None, "AssignedCredits::drop", "drop stores credits + self.port into the pool",
               "AssignedCredits::drop does not add self.port back to the pool", b.loc(0))
